@@ -88,6 +88,104 @@ func historyCase(r *rand.Rand, hot int) Case {
 	return call.toCase(tags, "")
 }
 
+// guard2: guard for a pair of results obtained together
+func guard2(f func() (string, string)) (a, b string) {
+	defer func() {
+		if r := recover(); r != nil {
+			a = N("panic", X(fmt.Sprint(r)))
+			b = a
+		}
+	}()
+	return f()
+}
+
+// twoLiveCase: two validators of one kind alive at the same time in one goroutine — created, configured,
+// then used one after the other.  Each result must be the result of that call alone.
+func twoLiveCase(r *rand.Rand) Case {
+	if chance(r, 0.5) {
+		mk := func() (interface{}, []string) {
+			v := flatValue(r)
+			rv := reflect.ValueOf(v)
+			var rules []string
+			for i, n := 0, r.IntN(3); i < n; i++ {
+				rules = append(rules, randRuleItem(r, rv.Kind(), rv, defaultRuleOpts))
+			}
+			return v, rules
+		}
+		x, rx := mk()
+		y, ry := mk()
+		ea, eb := guard2(func() (string, string) {
+			a, b := valid.NewVVar(), valid.NewVVar()
+			if len(rx) > 0 {
+				a.SetRules(rx...)
+			}
+			if len(ry) > 0 {
+				b.SetRules(ry...)
+			}
+			return errStr(a.Valid(x)), errStr(b.Valid(y))
+		})
+		if chance(r, 0.5) {
+			return varCaseWith(x, rx, []string{"carrier:var", "two-live:first"}, "", ea)
+		}
+		return varCaseWith(y, ry, []string{"carrier:var", "two-live:second"}, "", eb)
+	}
+	buildPool()
+	g := profRM.gen(r)
+	mk := func() structCall {
+		t := typePool[r.IntN(24)]
+		pv := reflect.New(t)
+		g.fill(pv.Elem(), 0)
+		c := structCall{src: pv.Interface()}
+		if chance(r, 0.5) {
+			c.tag = pick(r, []string{"alipay", "wechat", "valid"})
+		}
+		if chance(r, 0.4) {
+			rm := valid.RM{}
+			for i := 0; i < t.NumField(); i++ {
+				if chance(r, 0.5) {
+					f := t.Field(i)
+					rm[f.Name] = randRuleList(r, f.Type.Kind(), pv.Elem().Field(i), 3, g.o)
+				}
+			}
+			c.outer = rm
+		}
+		if chance(r, 0.3) {
+			c.local = map[string]string{"lcustom": "L1", pick(r, []string{"phone", "to", "int", "required"}): "L3"}
+		}
+		return c
+	}
+	ca, cb := mk(), mk()
+	build := func(c structCall) *valid.VStruct {
+		var vs *valid.VStruct
+		if c.tag != "" {
+			vs = valid.NewVStruct(c.tag)
+		} else {
+			vs = valid.NewVStruct()
+		}
+		if c.outer != nil {
+			vs.SetRule(c.outer)
+		}
+		for n, m := range c.local {
+			vs.SetValidFn(n, markerFn(m))
+		}
+		return vs
+	}
+	ea, eb := guard2(func() (string, string) {
+		va, vb := build(ca), build(cb)
+		return errStr(va.Valid(ca.src)), errStr(vb.Valid(cb.src))
+	})
+	pickC, impl, tag := ca, ea, "two-live:first"
+	if chance(r, 0.5) {
+		pickC, impl, tag = cb, eb, "two-live:second"
+	}
+	cfg := pickC.cfgSexp()
+	src, sp := encodeSrcCtx(pickC.src)
+	return Case{
+		OpFn: func(ext string) string { return "struct " + cfg + " " + ext + " " + src },
+		Impl: impl, Tags: []string{"top:pool", tag}, Nontrivial: impl != "nil", Sprint: sp,
+	}
+}
+
 // ---- results handed out earlier must stay fixed -----------------------------------------------------
 
 type retained struct {
@@ -138,6 +236,9 @@ func retainCase(r *rand.Rand) {
 	if chance(r, 0.7) {
 		rule += ",re='a,b'|msg,in=('x,y'/z)"
 	}
+	// a panic here is the implementation's; it is observed (and judged) by the validation cases of the
+	// stream, not by this bookkeeping
+	defer func() { _ = recover() }()
 	for _, tok := range valid.ValidNamesSplit(rule) {
 		retain("token", tok)
 	}
@@ -191,7 +292,9 @@ func init() {
 			if chance(r, 0.1) {
 				retainCase(r)
 			}
-			switch r.IntN(8) {
+			switch r.IntN(9) {
+			case 8:
+				return twoLiveCase(r)
 			case 0:
 				return flatVarCase(r, defaultRuleOpts)
 			case 1:
@@ -214,7 +317,9 @@ func init() {
 			if chance(r, 0.05) {
 				retainCase(r)
 			}
-			switch r.IntN(8) {
+			switch r.IntN(9) {
+			case 8:
+				return twoLiveCase(r)
 			case 0:
 				return flatVarCase(r, defaultRuleOpts)
 			case 1:
